@@ -138,9 +138,11 @@ def doSpill (aw cw xw tw fw nw : String) (rest : List String) : String :=
         let live := fun i => liveArr.getD i []
         let plan := fun i => planArr.getD i { ren := [], lclob := [], sclob := [] }
         if !(fixed.all (fun v => v < colArr.size)) then "bad-op" else
-        let C : SpillCtx := { temps := temps, fresh := fresh,
-          model := { alias := (fun p q => (adj.getD p []).contains q), colour := (fun v => colArr.getD v 0),
-                     fixed := (fun v => fixed.contains v) } }
+        let M : RegModel := {
+          alias := fun p q => (adj.getD p []).contains q
+          colour := fun v => colArr.getD v 0
+          fixed := fun v => fixed.contains v }
+        let C : SpillCtx := { temps := temps, fresh := fresh, model := M }
         if checkSpillStep pre post C live plan then "ok accept"
         else match firstDiff 0 post (expandAll plan 0 pre) with
           | some i => s!"ok reject shape {i}"
